@@ -230,8 +230,9 @@ def work(task):
     elif fam == 'payload':
         positions = range(table_end, len(orig))
         if big:
-            step = 1 if tier == 'thorough' and v == 3 and len(orig) < 20000 else (97 if len(orig) < 50000 else 8209)
-            positions = list(range(table_end, min(table_end + 96, len(orig)))) + list(range(table_end + 96, len(orig), step))
+            step = 1 if tier == 'thorough' and v == 3 and len(orig) < 20000 else (97 if len(orig) < 50000 else len(orig) // 24)
+            head = 96 if len(orig) < 50000 else 12
+            positions = list(range(table_end, min(table_end + head, len(orig)))) + list(range(table_end + head, len(orig), step))
         for pos in positions:
             cur = orig[pos]
             for nb in {0, 0xFF, cur ^ 1, cur ^ 0x80}:
